@@ -83,6 +83,11 @@ def main(argv):
     bad = 0
     for u in units:
         eng, status, detail, results, gen_s = run_unit(repo, specs, u)
+        canaries = [o for o in results if o.kind == 'canary']
+        results = [o for o in results if o.kind != 'canary']
+        vac = canaries and all(o.result == 'proved' for o in canaries)
+        if vac:
+            status = 'VACUOUS'
         np = sum(1 for o in results if o.result == 'proved')
         print('%-9s %-60s %s gen=%.1fs obl=%d proved=%d covers=%s' % (u[0], u[1] + ('@' + u[2] if u[2] else ''), status, gen_s, len(results), np, getattr(eng, 'covers', '?')))
         if status != 'ok':
